@@ -21,39 +21,52 @@ TAG2FINDING = {
 
 
 def syntactic_tags(prog: dict) -> list:
-    """Triggers that depend on statements which may not execute (computed from the AST, not from the run)."""
+    """Triggers that depend on statements which may not execute (computed from the AST, not from the run).
+    len-after-nested-mutation: len(X) where X is appended to / removed from / re-assigned inside a nested block, or
+    updated by `X op= ...` inside a nested block that the len() is not itself part of (inside that block the pinned
+    tree treats X as a run-time value; after it, the transpile-time length is stale)."""
     tags = []
-    mutated_nested, lens = set(), set()
+    muts, lens = [], []            # (name, kind, path) / (name, path); path = tuple of block numbers from the root
+    counter = [0]
 
-    def expr(e):
+    def expr(e, path):
         if isinstance(e, dict):
             if e.get("k") == "call" and e.get("f") == "len" and e["args"] and e["args"][0].get("k") == "var":
-                lens.add(e["args"][0]["n"])
+                lens.append((e["args"][0]["n"], path))
             for v in e.values():
-                expr(v)
+                expr(v, path)
         elif isinstance(e, list):
             for x in e:
-                expr(x)
+                expr(x, path)
 
-    def block(b, depth):
+    def block(b, path):
         for st in b:
-            if st["k"] in ("append", "remove", "assign", "aug") and depth > 0:
-                mutated_nested.add(st["n"])          # a list mutated, or a name (str / list) re-assigned, under nesting
-            expr({k: v for k, v in st.items() if k not in ("body", "orelse", "branches")})
+            if st["k"] in ("append", "remove", "assign", "aug"):
+                muts.append((st["n"], st["k"], path))
+            expr({k: v for k, v in st.items() if k not in ("body", "orelse", "branches")}, path)
             for br in st.get("branches", []):
-                expr(br["c"])
-                block(br["body"], depth + 1)
+                expr(br["c"], path)
+                counter[0] += 1
+                block(br["body"], path + (counter[0],))
             for key in ("body", "orelse"):
                 if isinstance(st.get(key), list):
-                    block(st[key], depth + 1)
+                    counter[0] += 1
+                    block(st[key], path + (counter[0],))
 
-    block(prog["setup"], 0)
-    block(prog["loop"], 1)
+    block(prog["setup"], ())
+    counter[0] += 1
+    block(prog["loop"], (counter[0],))
     for d in prog["defs"].values():
-        block(d["body"], 1)
-    if mutated_nested & lens:
-        tags.append("len-after-nested-mutation")
-    return tags
+        counter[0] += 1
+        block(d["body"], (counter[0],))
+    for name, lpath in lens:
+        for mname, kind, mpath in muts:
+            if mname != name or not mpath:
+                continue
+            if kind != "aug" or lpath[:len(mpath)] != mpath:
+                tags.append("len-after-nested-mutation")
+                break
+    return sorted(set(tags))
 
 
 # tags that matter only to some properties (a list created in the loop prints the right values: it only leaks)
@@ -64,15 +77,23 @@ def known_tags(feat, prop: str | None = None) -> list:
     return [t for t in feat if TAG2FINDING.get(t) and (t not in TAG_SCOPE or prop in TAG_SCOPE[t])]
 
 
-def retyped(ty: dict) -> list:
-    """Names that held values of two different types during the run (spec-side predicate)."""
+_HOLDS = {"i": {"i", "b"}, "b": {"b"}, "f": {"i", "b", "f"}, "s": {"s"}, "list": {"list"}}
+
+
+def retyped(ty: dict, ty0: dict | None = None) -> list:
+    """Names that later held a value their FIRST type cannot hold (spec-side predicate; the first assignment fixes the
+    C++ type on the pinned tree: int then float is the known finding, float then int is harmless)."""
     out = []
     if not isinstance(ty, dict):      # an empty TLA+ function prints as []
         return out
     for n, ts in ty.items():
         s = set(ts) - {"none"}
-        if len(s) > 1:
-            out.append(n)
+        if len(s) <= 1:
+            continue
+        first = (ty0 or {}).get(n) if isinstance(ty0, dict) else None
+        if first in _HOLDS and s <= _HOLDS[first]:
+            continue
+        out.append(n)
     return out
 
 
@@ -128,7 +149,7 @@ class Strata:
                 self.ill += 1
                 continue
             tags = known_tags(v["feat"], self.prop) + syntactic_tags(p)
-            if retyped(v["ty"]):
+            if retyped(v["ty"], v.get("ty0")):
                 tags.append("name-retyped")
             if extra_exclude:
                 tags = tags + list(extra_exclude(v))
